@@ -104,7 +104,7 @@ func addrKinds() []addrKind {
 	}
 }
 
-var c06AsTypes = []uint16{0x0012, 0x0016, 0x0020, 0x0001, 0x802b, 0x7e01, 0xfff0} //nolint:gochecknoglobals
+var c06AsTypes = []uint16{0x0012, 0x0016, 0x0020, 0x0001, 0x802b, 0x7e01, 0xfff0, 0x0004, 0x0005, 0x802c, 0x8023} //nolint:gochecknoglobals
 
 func c06Addr(c *core.Ctx, r *gen.Rand, k addrKind, port int, fam int) {
 	c.Eval(1)
@@ -386,7 +386,13 @@ func c06(c *core.Ctx) {
 		ua := make(stun.UnknownAttributes, n)
 		for k := range types {
 			types[k] = r.AttrType()
+			if k > 0 && i%3 == 1 && r.Bool() {
+				types[k] = types[k-1] // repeated entries are ordinary entries
+			}
 			ua[k] = stun.AttrType(types[k])
+		}
+		if n >= 2 && i%3 == 1 {
+			types[n-1], ua[n-1] = types[n-2], ua[n-2]
 		}
 		detail := map[string]interface{}{"count": n, "types": fmt.Sprint(types)}
 		m := new(stun.Message)
